@@ -359,7 +359,7 @@ type selFile struct {
 // walk lists the regular files below directory `as` (CLI name) in WalkDir order.
 func (iv *Inv) walk(t *Tree, as, root string, out *[]selFile, depth int) {
 	de, real := t.resolve(as, 0)
-	if de == nil || de.Kind != KDir || depth > 8 {
+	if de == nil || de.Kind != KDir || depth > 64 {
 		return
 	}
 	for _, name := range t.children(real) {
